@@ -322,9 +322,10 @@ def names_of(node):
 
 def unique_key(node):
     """identity of an expression entry modulo blanks, operator spelling and redundant parentheses (the
-    library's de-duplication key `unique_key` with provider ids dropped). Recorded finding K1/D20: the
-    same entry used twice in one transition's cond/unless lists is silently de-duplicated (or, when the
-    texts differ only in blanks, rejected); such lists are not generated."""
+    library's de-duplication key `unique_key` with provider ids dropped). The same entry twice in one
+    transition's `cond` list (or twice in its `unless` list) is one guard (or, when the texts differ only in
+    blanks, rejected); such lists are not generated. The same entry once as `cond` and once as `unless` is two
+    guards (D20, repaired in 299f196) and is generated."""
     if isinstance(node, ast.BoolOp):
         op = "and" if isinstance(node.op, ast.And) else "or"
         acc = unique_key(node.values[0])
@@ -390,6 +391,16 @@ def gen_scenario(rng, sid, p_malformed=0.15, max_depth=5, p_multi=0.3, allow_asy
     for gi in range(n_cond + n_unless):
         group = "cond" if gi < n_cond else "unless"
         r = rng.random()
+        twin = [en for en in entries if en["group"] == "cond"]
+        if group == "unless" and twin and rng.random() < 0.15 \
+                and not any(en["group"] == "unless" for en in entries):
+            # an `unless` entry that repeats a `cond` entry of the same transition: never enabled (D20)
+            en = dict(rng.choice(twin))
+            en["group"] = "unless"
+            entries.append(en)
+            if en["kind"] == "expr":
+                keys.add(("unless", unique_key(classify(en["canon"])[1])))
+            continue
         if r < 0.22 and ref_names:
             kind = rng.choice(["callable", "prop", "method"])
             nm = ref_names.pop()
@@ -403,8 +414,8 @@ def gen_scenario(rng, sid, p_malformed=0.15, max_depth=5, p_multi=0.3, allow_asy
             cls, node = classify(canon)
             if cls != "ok":
                 continue
-            k = unique_key(node)
-            if k in keys or any(x.get("text") == text for x in entries):
+            k = (group, unique_key(node))
+            if k in keys or any(x.get("text") == text and x["group"] == group for x in entries):
                 continue
             keys.add(k)
             entries.append(dict(group=group, kind="expr", text=text, canon=canon, tight=tight))
